@@ -223,7 +223,6 @@ impl Default for SharedSubscriptionAvailable {
 
 impl Copy for SharedSubscriptionAvailable {}
 
-#[cfg_attr(kani, repr(u8))] // verification hook: explicit tag instead of a niche, no effect on safe code
 #[derive(PartialEq, Clone, Debug)]
 pub(crate) enum Property {
     PayloadFormatIndicator(PayloadFormatIndicator),
